@@ -3,6 +3,7 @@ package main
 import (
 	"flag"
 	"fmt"
+	"go/token"
 	"os"
 	"regexp"
 	"sort"
@@ -181,6 +182,20 @@ func cmdSSA(args []string) {
 			hs = append(hs, li)
 		}
 		sort.Slice(hs, func(i, j int) bool { return hs[i].ord < hs[j].ord })
+		g.buildPosIndex()
+		type cs struct {
+			pos  token.Pos
+			text string
+			ord  int
+		}
+		var calls []cs
+		for p, o := range g.callPosOrd {
+			calls = append(calls, cs{p, g.posText[p], o})
+		}
+		sort.Slice(calls, func(i, j int) bool { return calls[i].pos < calls[j].pos })
+		for _, c := range calls {
+			fmt.Printf("# call %s#%d line %d\n", c.text, c.ord, P.prog.Fset.Position(c.pos).Line)
+		}
 		for _, li := range hs {
 			line := 0
 			for _, ins := range li.header.Instrs {
